@@ -91,7 +91,17 @@ func (b *backendSrv) failing() bool {
 func (b *backendSrv) ServeHTTP(w http.ResponseWriter, r *http.Request) {
 	var body []byte
 	if r.Method == "POST" {
-		body, _ = io.ReadAll(r.Body)
+		var err error
+		body, err = io.ReadAll(r.Body)
+		if err != nil {
+			// uploads are all-or-nothing: a body cut short (origin killed while
+			// sending) stores nothing
+			b.mu.Lock()
+			b.counts["POST_aborted"]++
+			b.mu.Unlock()
+			w.WriteHeader(http.StatusBadRequest)
+			return
+		}
 	}
 	b.mu.Lock()
 	defer b.mu.Unlock()
